@@ -67,6 +67,8 @@ func valBytes(v string) []byte {
 	switch {
 	case strings.HasPrefix(v, "r"):
 		return []byte(v[1:] + ":ok")
+	case strings.HasPrefix(v, "s"): // same rank as rN, other bytes: the validator's selection calls it a tie
+		return []byte(v[1:] + ":alt")
 	case v == "bad":
 		return []byte("7:bad")
 	}
@@ -739,7 +741,7 @@ func genOpNetwork(r *vu.RNG, n, K int, faultPct int, withVals, withProvs bool) s
 		}
 		val := "-"
 		if withVals && r.Chance(1, 2) {
-			val = []string{"r1", "r2", "r3", "r5", "bad", "mis", "nil", "r2", "mis2"}[r.Intn(9)]
+			val = []string{"r1", "r2", "r3", "r5", "bad", "mis", "nil", "r2", "mis2", "s2", "s3", "s2"}[r.Intn(12)]
 		}
 		provs := ""
 		if withProvs && r.Chance(1, 2) {
